@@ -1,5 +1,6 @@
 import HdVerif.Model.Json
 import HdVerif.Model.Volume
+import HdVerif.Model.VolumeMore
 open Lean HdVerif HdVerif.Drv HdVerif.Vol
 
 /-! JSON-lines driver of the C08 model: per-axis helpers on a one-axis identity geometry and whole histories. -/
@@ -139,7 +140,74 @@ def history (j : Json) : Except String Json := do
     pure (okJson (Json.arr out))
   | _, _ => throw "affine must be 3x4 and shape needs three spatial entries"
 
+
+/-- exact square root of a rational that is a perfect square (what the float `sqrt` returns for the generated geometries up
+to rounding); anything else is reported -/
+def sqrtExact (x : Rat) : Rat :=
+  if x < 0 then -1 else
+  let n := x.num.toNat
+  let d := x.den
+  let rn := Nat.sqrt n
+  let rd := Nat.sqrt d
+  if rn * rn == n && rd * rd == d then (rn : Rat) / (rd : Rat) else -1
+
+def geomOfJson (j : Json) : Except String Geom := do
+  let aff ← getArr j "affine"
+  let rows ← aff.toList.mapM fun r => do (← r.getArr?).toList.mapM parseRat
+  let shape ← getIntList j "shape"
+  match rows, shape with
+  | [[a00, a01, a02, a03], [a10, a11, a12, a13], [a20, a21, a22, a23]], n0 :: n1 :: n2 :: _ =>
+    pure { c0 := ⟨a00, a10, a20⟩, c1 := ⟨a01, a11, a21⟩, c2 := ⟨a02, a12, a22⟩, t := ⟨a03, a13, a23⟩,
+           n0 := n0, n1 := n1, n2 := n2 }
+  | _, _ => throw "affine must be 3x4 and shape needs three spatial entries"
+
+def geomToJson (g : Geom) : Json :=
+  Json.mkObj [
+    ("shape", Json.arr #[(g.n0 : Json), (g.n1 : Json), (g.n2 : Json)]),
+    ("affine", Json.arr #[
+      Json.arr #[ratToJson g.c0.x, ratToJson g.c1.x, ratToJson g.c2.x, ratToJson g.t.x],
+      Json.arr #[ratToJson g.c0.y, ratToJson g.c1.y, ratToJson g.c2.y, ratToJson g.t.y],
+      Json.arr #[ratToJson g.c0.z, ratToJson g.c1.z, ratToJson g.c2.z, ratToJson g.t.z]])]
+
+def ratsJson (l : List Rat) : Json := Json.arr (l.map ratToJson).toArray
+
+/-- the accessors as the current source computes them (T9n), on the exact square root -/
+def accessors (j : Json) : Except String Json := do
+  let g ← geomOfJson j
+  let a := g.entry
+  let n := g.dim
+  let sq := sqrtExact
+  pure (okJson (Json.mkObj [
+    ("position", ratsJson (HdVerif.Gen.accPosition sq a n)),
+    ("spacing", ratsJson (HdVerif.Gen.accSpacing sq a n)),
+    ("pixel_spacing", ratsJson (HdVerif.Gen.accPixelSpacing sq a n)),
+    ("spacing_between_slices", ratsJson (HdVerif.Gen.accSpacingBetweenSlices sq a n)),
+    ("direction_cosines", ratsJson (HdVerif.Gen.accDirectionCosines sq a n)),
+    ("direction", ratsJson (HdVerif.Gen.accDirection sq a n)),
+    ("spacing_vectors", ratsJson (HdVerif.Gen.accSpacingVectors sq a n)),
+    ("unit_vectors", ratsJson (HdVerif.Gen.accUnitVectors sq a n)),
+    ("voxel_volume", ratsJson (HdVerif.Gen.accVoxelVolume sq a n)),
+    ("physical_extent", ratsJson (HdVerif.Gen.accPhysicalExtent sq a n)),
+    ("physical_volume", ratsJson (HdVerif.Gen.accPhysicalVolume sq a n)),
+    ("center_indices", ratsJson (HdVerif.Gen.accCenterIndices sq a n)),
+    ("nearest_center_indices", Json.arr ((HdVerif.Gen.accNearestCenterIndices sq a n).map fun (k : Int) => (k : Json)).toArray),
+    ("affine", ratsJson (HdVerif.Gen.accAffine sq a n)),
+    ("left_handed", Json.bool (decide (HdVerif.Gen.accHandednessTest a < 0))),
+    ("exact_sqrt", Json.bool ((HdVerif.Gen.accSpacing sq a n).all (fun x => decide (0 < x))))]))
+
+/-- the randomised conveniences with the values numpy drew -/
+def randomOp (j : Json) : Except String Json := do
+  let g ← geomOfJson j
+  let k ← getStr j "kind"
+  let r ← if k == "crop" then pure (randomCropG AxMap.size g (← getIntList j "crop") (← getIntList j "draws"))
+    else if k == "flip" then pure (randomFlipG AxMap.size g (← getIntList j "axes") (← getIntList j "draws"))
+    else if k == "permute" then pure (randomPermuteG g (← getIntList j "axes") (← getIntList j "drawn"))
+    else throw s!"unknown random op {k}"
+  pure (exceptToJson (fun (s : GStep) => geomToJson s.1) r)
+
 def handlers : List (String × Handler) := [
+  ("accessors", accessors),
+  ("randomOp", randomOp),
   ("sliceIndices", fun j => do
     let r := sliceIndices (← getOptInt j "start") (← getOptInt j "stop") (← getOptInt j "step") (← getInt j "n")
     pure (exceptToJson (fun (t : Int × Int × Int) =>
